@@ -15,7 +15,6 @@
 (***************************************************************************)
 EXTENDS Numeral    \* the numeral scanner (Scan, WellFormed, Field, ...)
 
-QUOTE == 34
 
 \* ---- (a) tokenizer -----------------------------------------------------------
 \* state: st in {"before","unq","quoted","after","amb"}, cur (bytes), items
